@@ -377,6 +377,65 @@ func enginePAIR(w *World, tier string) *EngineResult {
 			}
 		}
 	}
+	// … or captured directly by a restore closure made in place (the maker inlined into the
+	// function that returns the closure)
+	checkFresh := func(fn *ssa.Function, src *ssa.Call) {
+		producer := src.Call.StaticCallee()
+		if producer == nil || len(producer.Blocks) == 0 {
+			return
+		}
+		nSnapMaps++
+		fresh := true
+		for _, pb := range producer.Blocks {
+			if ret, ok := pb.Instrs[len(pb.Instrs)-1].(*ssa.Return); ok && len(ret.Results) == 1 {
+				if mm, ok := ret.Results[0].(*ssa.MakeMap); !ok || mm.Parent() != producer {
+					fresh = false
+				}
+			}
+		}
+		construct := "snapshot from " + producer.Name()
+		if fresh {
+			r.holds("PAIR-fresh", fnKey(fn), construct, "the snapshot captured by the restore closure is a map allocated by "+fnKey(producer)+" for this call", w.pos(instrPos(src)))
+		} else {
+			r.violated("PAIR-fresh", fnKey(fn), construct, fnKey(producer)+" does not return a freshly allocated map: scopes nest, so an inner scope's snapshot overwrites the one an outer scope still holds and the outer restore keeps what it should delete", w.pos(instrPos(src)))
+		}
+	}
+	for _, fn := range w.Funcs {
+		if ri, _ := restoreResultIndex(fn.Signature); ri < 0 {
+			continue
+		}
+		for _, b := range fn.Blocks {
+			for _, ins := range b.Instrs {
+				mc, ok := ins.(*ssa.MakeClosure)
+				if !ok {
+					continue
+				}
+				for _, bnd := range mc.Bindings {
+					var val ssa.Value = bnd
+					if al, isCell := bnd.(*ssa.Alloc); isCell && al.Referrers() != nil {
+						// the captured variable's cell: its single store
+						var stores []ssa.Value
+						for _, ref := range *al.Referrers() {
+							if st, ok := ref.(*ssa.Store); ok && st.Addr == ssa.Value(al) {
+								stores = append(stores, st.Val)
+							}
+						}
+						if len(stores) == 1 {
+							val = stores[0]
+						}
+					}
+					if _, isMap := val.Type().Underlying().(*types.Map); !isMap {
+						continue
+					}
+					if src, ok := val.(*ssa.Call); ok {
+						if cal := src.Call.StaticCallee(); cal != nil && cal.Pkg != nil && inModule(cal.Pkg.Pkg.Path()) {
+							checkFresh(fn, src)
+						}
+					}
+				}
+			}
+		}
+	}
 	r.Stats["snapshot_maps_captured"] = nSnapMaps
 	r.floor("snapshot_maps_captured", 1)
 
